@@ -1,7 +1,9 @@
 package c14
 
 import (
+	"fmt"
 	"os"
+	"strings"
 	"testing"
 	"time"
 
@@ -31,4 +33,74 @@ func TestDevRunFile(t *testing.T) {
 			t.Logf("output: %s", o.Output)
 		}
 	}
+}
+
+// TestDevGapTable (development aid, VERIF_C14_GAP=1): prints the rune ranges on
+// which Wa's strconv.IsPrint/IsGraphic tables differ from Go's, as Go source.
+func TestDevGapTable(t *testing.T) {
+	if os.Getenv("VERIF_C14_GAP") == "" {
+		t.Skip("VERIF_C14_GAP not set")
+	}
+	var calls []Call
+	for b := 0; b < numPrintBlocks; b++ {
+		calls = append(calls, Call{F: "strconv.IsPrint+IsGraphic#block4096", A: []string{encI(int64(b))}})
+	}
+	lines := map[int]string{}
+	var o wk.Outcome
+	for at := 0; at < len(calls); at += 24 {
+		end := at + 24
+		if end > len(calls) {
+			end = len(calls)
+		}
+		o = theWorker().Do("run", wk.Src{Name: "gap.wa", Src: renderDriver(calls[at:end])})
+		var r wk.RunResult
+		o.Decode(&r)
+		for _, l := range strings.Split(r.Stdout, "\n") {
+			var idx int
+			var body string
+			if n, _ := fmt.Sscanf(l, "@%d %s", &idx, &body); n == 2 {
+				lines[at+idx] = body
+			}
+		}
+	}
+	type rg struct{ lo, hi rune }
+	var out []rg
+	oneWay := true
+	for b := 0; b < numPrintBlocks; b++ {
+		want := printBits(b)
+		got := lines[b]
+		if len(got) != len(want) {
+			t.Fatalf("block %d missing (%s)", b, o.String())
+		}
+		for i := 0; i < 4096; i++ {
+			sh := uint(2 * (i % 2))
+			w := (hexVal(want[i/2]) >> sh) & 3
+			g := (hexVal(got[i/2]) >> sh) & 3
+			if w != g {
+				if g&^w != 0 {
+					oneWay = false
+				}
+				r := rune(b*4096 + i)
+				if n := len(out); n > 0 && out[n-1].hi == r-1 {
+					out[n-1].hi = r
+				} else {
+					out = append(out, rg{r, r})
+				}
+			}
+		}
+	}
+	total := 0
+	var sb strings.Builder
+	for _, g := range out {
+		total += int(g.hi-g.lo) + 1
+		fmt.Fprintf(&sb, "{0x%x, 0x%x}, ", g.lo, g.hi)
+	}
+	t.Logf("ranges=%d runes=%d oneWay(Go ⊇ Wa)=%v\n%s", len(out), total, oneWay, sb.String())
+}
+
+func hexVal(c byte) int {
+	if c >= 'a' {
+		return int(c-'a') + 10
+	}
+	return int(c - '0')
 }
